@@ -70,6 +70,22 @@ def _own_walk(stmts):
             stack.append(c)
 
 
+def _closed_lambda(n, fn):
+    """A lambda that reads none of the enclosing function's own names (its
+    parameters and locals): renaming those locals cannot touch it."""
+    if not isinstance(n, ast.Lambda):
+        return False
+    own = {a.arg for a in ast.walk(fn.args) if isinstance(a, ast.arg)}
+    for x in ast.walk(fn):
+        if isinstance(x, ast.Name) and isinstance(x.ctx, ast.Store):
+            own.add(x.id)
+    lam_params = {a.arg for a in ast.walk(n.args) if isinstance(a, ast.arg)}
+    for x in ast.walk(n.body):
+        if isinstance(x, ast.Name) and x.id in own and x.id not in lam_params:
+            return False
+    return True
+
+
 def _is_cm(fn):
     for d in fn.decorator_list:
         t = ast.unparse(d)
@@ -118,7 +134,8 @@ def single_exit(fn):
                 n.func, ast.Name) and n.func.id == fn.name or isinstance(
                     n.func, ast.Attribute) and n.func.attr == fn.name):
             return None        # recursive
-        if isinstance(n, (ast.FunctionDef, ast.Lambda)) and n is not fn:
+        if isinstance(n, (ast.FunctionDef, ast.Lambda)) and n is not fn \
+                and not _closed_lambda(n, fn):
             return None        # closures capture locals: keep it simple
     return body, res
 
@@ -294,7 +311,8 @@ def tail_exit(fn, target):
                 n.func, ast.Name) and n.func.id == fn.name or isinstance(
                     n.func, ast.Attribute) and n.func.attr == fn.name):
             return None
-        if isinstance(n, (ast.FunctionDef, ast.Lambda)) and n is not fn:
+        if isinstance(n, (ast.FunctionDef, ast.Lambda)) and n is not fn \
+                and not _closed_lambda(n, fn):
             return None
     return _conv_tail(body, target, fn)
 
@@ -471,7 +489,8 @@ def generator_body(fn):
     if any(isinstance(n, ast.Return) for n in _own_walk(body)):
         return None
     for n in ast.walk(fn):
-        if isinstance(n, (ast.FunctionDef, ast.Lambda)) and n is not fn:
+        if isinstance(n, (ast.FunctionDef, ast.Lambda)) and n is not fn \
+                and not _closed_lambda(n, fn):
             return None
     return body
 
@@ -516,11 +535,11 @@ def expand_collected(fn, call, kind, target):
             asg = ast.Assign(targets=[ast.Name(id=nm, ctx=ast.Store())],
                              value=copy_node(a))
             pro.append(ast.copy_location(asg, call))
+    # every local of the generator is renamed - also one that happens to
+    # be called like the caller's target
     for nm in assigned:
-        if nm not in names and nm != target:
+        if nm not in names:
             names[nm] = '%s__i%d' % (nm, k)
-    if target in assigned:
-        return None
     rn = _Rename(names, exprs)
     ya = _YieldToAdd(target, 'add' if kind == 'set' else 'append')
     new_body = [ya.visit(rn.visit(copy_node(s))) for s in body]
